@@ -14,14 +14,15 @@
 //! alive, the pool must have 0 bytes reserved, no spill file may exist and the
 //! number of alive tokio tasks must be back to its value before the query.
 //!
-//! Part `yield` (one subprocess per case, wall-clock watchdog): every shape over
-//! ENDLESS always-ready sources behind `CooperativeExec`, drained by one task that
-//! never yields by itself, next to a canary task on the same current-thread
-//! runtime: between two polls of the canary no source stream may hand out more than
+//! Part `yield` (subprocesses under a watchdog): every shape over ENDLESS
+//! always-ready sources behind `CooperativeExec`, drained by one task that never
+//! yields by itself, next to a canary task on the same current-thread runtime:
+//! between two polls of the canary no source stream may hand out more than
 //! 2 x 128 batches (tokio's cooperative budget); after a fixed number of source
 //! batches the query task is aborted: the abort must complete, every source stream
-//! must be dropped and the pool empty.  A case that does not finish in time is a
-//! reported violation (the task never yielded), not a hung check.
+//! must be dropped and the pool empty.  A case that burns more than 20 s of CPU
+//! (or 300 s of wall clock) without reporting is a reported violation (the task
+//! never yielded), not a hung check; the subprocess continues with the next case.
 #[path = "c20/shapes.rs"]
 mod shapes;
 
@@ -47,7 +48,7 @@ type Plan = Arc<dyn ExecutionPlan>;
 #[derive(Serialize, Deserialize, Clone, Debug)]
 enum Case {
     Drop { spec: Spec, prefix: Vec<usize> },
-    Yield { spec: Spec },
+    Yield { spec: Spec, batches: usize },
 }
 
 fn wrap(p: Plan, _spec: &Spec) -> Plan {
@@ -229,9 +230,7 @@ fn explore_drop(ctx: &Ctx) {
 // ------------------------------------------------------------------ part yield (child process)
 
 const YIELD_BOUND: usize = 2 * 128;
-fn source_batches() -> usize {
-    std::env::var("C19_SOURCE_BATCHES").ok().and_then(|s| s.parse().ok()).unwrap_or(800)
-}
+
 /// A query task that never yields spins on the always-ready source: the watchdog is on the CPU time of the
 /// subprocess (robust against a loaded machine; a healthy case needs 0.3 - 3 s), with a wall-clock backstop for a
 /// task that blocks without spinning.  The subprocess also limits its own address space and CPU time.
@@ -295,6 +294,8 @@ struct Canary {
     max_gap: usize,
     polls: usize,
     stop: Arc<AtomicBool>,
+    /// total number of source batches after which the query task is aborted
+    batches: usize,
 }
 
 impl Future for Canary {
@@ -309,7 +310,7 @@ impl Future for Canary {
             self.max_gap = self.max_gap.max(gap);
             total += n;
         }
-        if total >= source_batches() || self.stop.load(Ordering::SeqCst) {
+        if total >= self.batches || self.stop.load(Ordering::SeqCst) {
             return Poll::Ready((self.max_gap, self.polls));
         }
         cx.waker().wake_by_ref();
@@ -317,7 +318,7 @@ impl Future for Canary {
     }
 }
 
-fn child_yield(spec: &Spec) -> Value {
+fn child_yield(spec: &Spec, batches: usize) -> Value {
     let (plan, _, infos) = shapes::build_plan(spec);
     let plan = wrap(plan, spec);
     let (task_ctx, pool, _spill) = shapes::make_ctx(spec);
@@ -336,7 +337,7 @@ fn child_yield(spec: &Spec) -> Value {
         let rows = Arc::new(AtomicUsize::new(0));
         let stop = Arc::new(AtomicBool::new(false));
         let query = tokio::spawn(Drain { streams, rows: Arc::clone(&rows) });
-        let canary = tokio::spawn(Canary { last: vec![0; counters.len()], counters: counters.clone(), max_gap: 0, polls: 0, stop: Arc::clone(&stop) });
+        let canary = tokio::spawn(Canary { last: vec![0; counters.len()], counters: counters.clone(), max_gap: 0, polls: 0, stop: Arc::clone(&stop), batches });
         // the query may finish by itself (LIMIT): then stop the canary
         let abort = query.abort_handle();
         let stop2 = Arc::clone(&stop);
@@ -369,44 +370,10 @@ fn child_yield(spec: &Spec) -> Value {
     })
 }
 
-/// Runs one yield case in a subprocess under the watchdog.
-fn run_yield(spec: &Spec) -> Result<Value, (String, String)> {
-    let exe = std::env::current_exe().map_err(|e| ("machinery".to_string(), e.to_string()))?;
-    let mut child = std::process::Command::new(exe)
-        .arg("--child-yield")
-        .arg(serde_json::to_string(spec).unwrap())
-        .stdout(std::process::Stdio::piped())
-        .stderr(std::process::Stdio::null())
-        .spawn()
-        .map_err(|e| ("machinery".to_string(), e.to_string()))?;
-    let t0 = Instant::now();
-    loop {
-        match child.try_wait() {
-            Ok(Some(_)) => break,
-            Ok(None) => {
-                let cpu = cpu_time_of(child.id()).unwrap_or_default();
-                if cpu > WATCHDOG_CPU || t0.elapsed() > WATCHDOG_WALL {
-                    let _ = child.kill();
-                    let _ = child.wait();
-                    return Err((
-                        "never_yields".into(),
-                        format!(
-                            "the query task over endless always-ready cooperative sources did not let the canary task / the abort run ({:.0} s of CPU, {:.0} s of wall clock; watchdog {} s CPU / {} s wall): it does not yield to the runtime",
-                            cpu.as_secs_f64(), t0.elapsed().as_secs_f64(), WATCHDOG_CPU.as_secs(), WATCHDOG_WALL.as_secs()
-                        ),
-                    ));
-                }
-                std::thread::sleep(Duration::from_millis(20));
-            }
-            Err(e) => return Err(("machinery".into(), e.to_string())),
-        }
-    }
-    let out = child.wait_with_output().map_err(|e| ("machinery".to_string(), e.to_string()))?;
-    let text = String::from_utf8_lossy(&out.stdout);
-    let line = text.lines().rev().find(|l| l.starts_with('{')).ok_or_else(|| {
-        ("crash".to_string(), format!("the subprocess running the query over endless sources died without a result (status {:?}; address space limited to {} GiB): {}", out.status, CHILD_AS_LIMIT >> 30, text))
-    })?;
-    let v: Value = serde_json::from_str(line).map_err(|e| ("machinery".to_string(), e.to_string()))?;
+type YieldResult = Result<Value, (String, String)>;
+
+/// judges the report of one finished case
+fn judge_yield(v: Value) -> YieldResult {
     if let Some(e) = v.get("execute_error") {
         return Err(("execute_error".into(), format!("execute failed: {e}")));
     }
@@ -430,13 +397,101 @@ fn run_yield(spec: &Spec) -> Result<Value, (String, String)> {
     Ok(v)
 }
 
+/// Runs yield cases in subprocesses under the watchdog: one subprocess works through the list and reports each
+/// case on its own line; when the watchdog fires (or the subprocess dies) the case in progress gets the blame and
+/// a fresh subprocess continues with the rest, so a hang can never wedge the check.
+fn run_yield_group(specs: &[Spec], batches: usize) -> Vec<YieldResult> {
+    let mut results: Vec<YieldResult> = vec![];
+    let machinery = |e: String| -> YieldResult { Err(("machinery".to_string(), e)) };
+    while results.len() < specs.len() {
+        let rest = &specs[results.len()..];
+        let exe = match std::env::current_exe() {
+            Ok(e) => e,
+            Err(e) => {
+                results.push(machinery(e.to_string()));
+                continue;
+            }
+        };
+        let mut child = match std::process::Command::new(exe)
+            .arg("--child-yield")
+            .arg(batches.to_string())
+            .arg(serde_json::to_string(rest).unwrap())
+            .stdout(std::process::Stdio::piped())
+            .stderr(std::process::Stdio::null())
+            .spawn()
+        {
+            Ok(c) => c,
+            Err(e) => {
+                results.push(machinery(e.to_string()));
+                continue;
+            }
+        };
+        let stdout = child.stdout.take().expect("piped stdout");
+        let (tx, rx) = std::sync::mpsc::channel::<String>();
+        let reader = std::thread::spawn(move || {
+            use std::io::BufRead;
+            for line in std::io::BufReader::new(stdout).lines().map_while(Result::ok) {
+                if tx.send(line).is_err() {
+                    break;
+                }
+            }
+        });
+        let mut done_here = 0usize;
+        let mut t_case = Instant::now();
+        let mut cpu_case = Duration::ZERO;
+        loop {
+            match rx.recv_timeout(Duration::from_millis(20)) {
+                Ok(line) => {
+                    if let Some(j) = line.strip_prefix("RESULT ") {
+                        match serde_json::from_str::<Value>(j) {
+                            Ok(v) => results.push(judge_yield(v)),
+                            Err(e) => results.push(machinery(format!("unreadable result line: {e}"))),
+                        }
+                        done_here += 1;
+                        t_case = Instant::now();
+                        cpu_case = cpu_time_of(child.id()).unwrap_or(cpu_case);
+                        if done_here == rest.len() {
+                            break;
+                        }
+                    }
+                }
+                Err(std::sync::mpsc::RecvTimeoutError::Timeout) => {
+                    let cpu = cpu_time_of(child.id()).unwrap_or(cpu_case).saturating_sub(cpu_case);
+                    if cpu > WATCHDOG_CPU || t_case.elapsed() > WATCHDOG_WALL {
+                        let _ = child.kill();
+                        results.push(Err((
+                            "never_yields".into(),
+                            format!(
+                                "the query task over endless always-ready cooperative sources did not let the canary task / the abort run ({:.0} s of CPU, {:.0} s of wall clock; watchdog {} s CPU / {} s wall): it does not yield to the runtime",
+                                cpu.as_secs_f64(), t_case.elapsed().as_secs_f64(), WATCHDOG_CPU.as_secs(), WATCHDOG_WALL.as_secs()
+                            ),
+                        )));
+                        break;
+                    }
+                }
+                Err(std::sync::mpsc::RecvTimeoutError::Disconnected) => {
+                    // the subprocess is gone without reporting the case in progress
+                    let status = child.wait().ok();
+                    results.push(Err((
+                        "crash".into(),
+                        format!("the subprocess running the query over endless sources died without a result (status {status:?}; address space limited to {} GiB)", CHILD_AS_LIMIT >> 30),
+                    )));
+                    break;
+                }
+            }
+        }
+        let _ = child.kill();
+        let _ = child.wait();
+        let _ = reader.join();
+    }
+    results
+}
+
 fn explore_yield(ctx: &Ctx) {
     let batches: usize = ctx.pick(800, 4000);
-    // the subprocesses read the bound from the environment
-    unsafe { std::env::set_var("C19_SOURCE_BATCHES", batches.to_string()) };
     let mut specs = vec![];
     for s in ALL_SHAPES {
-        for endless in [1u8, 2u8] {
+        for endless in ctx.pick(vec![1u8], vec![1u8, 2u8]) {
             let mut sp = Spec::new(*s, None, 8192);
             sp.endless = endless;
             specs.push(sp);
@@ -444,38 +499,40 @@ fn explore_yield(ctx: &Ctx) {
     }
     ctx.set_extra(
         "bounds_yield",
-        json!({"cases": specs.len(), "shapes": ALL_SHAPES.len(), "source_declared": "bounded | unbounded", "source_batches_before_abort": batches,
-            "yield_bound_batches_per_stream_between_canary_polls": YIELD_BOUND, "watchdog_cpu_s": WATCHDOG_CPU.as_secs(), "watchdog_wall_s": WATCHDOG_WALL.as_secs()}),
+        json!({"cases": specs.len(), "shapes": ALL_SHAPES.len(), "source_declared": ctx.pick("bounded", "bounded | unbounded"), "source_batches_before_abort": batches,
+            "yield_bound_batches_per_stream_between_canary_polls": YIELD_BOUND, "watchdog_cpu_s_per_case": WATCHDOG_CPU.as_secs(), "watchdog_wall_s_per_case": WATCHDOG_WALL.as_secs()}),
     );
-    specs.par_iter().for_each(|spec| {
+    let groups: Vec<&[Spec]> = specs.chunks(5).collect();
+    groups.par_iter().for_each(|group| {
         if ctx.should_stop() {
             return;
         }
-        ctx.eval();
-        ctx.add_transitions(1);
-        match run_yield(spec) {
-            Ok(v) => {
-                ctx.add_states(1);
-                ctx.count("yield.cases", 1);
-                let q = v.get("query").and_then(|x| x.as_str()).unwrap_or("").to_string();
-                ctx.count(&format!("yield.query_{q}"), 1);
-                let gap = v.get("max_gap").and_then(|x| x.as_u64()).unwrap_or(0);
-                ctx.count(if gap <= 128 { "yield.max_gap_le_128" } else { "yield.max_gap_129_to_256" }, 1);
-                // non-trivial: the canary really ran many times next to a running query
-                if v.get("canary_polls").and_then(|x| x.as_u64()).unwrap_or(0) >= 4 {
-                    ctx.nontrivial(&("yield", serde_json::to_string(spec).unwrap()));
+        for (spec, res) in group.iter().zip(run_yield_group(group, batches)) {
+            ctx.eval();
+            ctx.add_transitions(1);
+            match res {
+                Ok(v) => {
+                    ctx.add_states(1);
+                    ctx.count("yield.cases", 1);
+                    let q = v.get("query").and_then(|x| x.as_str()).unwrap_or("").to_string();
+                    ctx.count(&format!("yield.query_{q}"), 1);
+                    let gap = v.get("max_gap").and_then(|x| x.as_u64()).unwrap_or(0);
+                    ctx.count(if gap <= 128 { "yield.max_gap_le_128" } else { "yield.max_gap_129_to_256" }, 1);
+                    // non-trivial: the canary really ran many times next to a running query
+                    if v.get("canary_polls").and_then(|x| x.as_u64()).unwrap_or(0) >= 4 {
+                        ctx.nontrivial(&("yield", serde_json::to_string(spec).unwrap()));
+                    }
+                    if ctx.want_sample() && spec.shape == Shape::SortOverHashJoin {
+                        ctx.sample(json!({"part": "yield", "spec": spec, "observed": v}));
+                    }
                 }
-                if ctx.want_sample() && spec.shape == Shape::SortOverHashJoin {
-                    ctx.sample(json!({"part": "yield", "spec": spec, "observed": v}));
+                Err((sym, what)) if sym == "machinery" => ctx.machinery_error(format!("yield case {:?}: {what}", spec.shape)),
+                Err((sym, _)) if sym == "execute_error" && spec.endless == 2 => {
+                    // the operator refuses the unbounded input at execute time: not a case
+                    ctx.count("yield.rejected_unbounded_input", 1);
                 }
+                Err((sym, what)) => ctx.violation(format!("{:?}|endless_source|{sym}", spec.shape), what, json!({"Yield": {"spec": spec, "batches": batches}})),
             }
-            Err((sym, what)) if sym == "machinery" => ctx.machinery_error(format!("yield case {:?}: {what}", spec.shape)),
-            Err((sym, what)) if sym == "execute_error" && spec.endless == 2 => {
-                // the operator refuses the unbounded input at execute time: not a case
-                ctx.count("yield.rejected_unbounded_input", 1);
-                let _ = what;
-            }
-            Err((sym, what)) => ctx.violation(format!("{:?}|endless_source|{sym}", spec.shape), what, json!({"Yield": {"spec": spec}})),
         }
     });
 }
@@ -497,22 +554,27 @@ fn replay(v: &Value) -> Result<(), String> {
     let c: Case = serde_json::from_value(v.clone()).map_err(|e| e.to_string())?;
     match c {
         Case::Drop { spec, prefix } => mc_core::catch(|| run_drop(&spec, &prefix).2.map_err(|(_, w)| w)).unwrap_or_else(Err),
-        Case::Yield { spec } => run_yield(&spec).map(|_| ()).map_err(|(_, w)| w),
+        Case::Yield { spec, batches } => run_yield_group(&[spec], batches).remove(0).map(|_| ()).map_err(|(_, w)| w),
     }
 }
 
 fn main() {
     let args = mc_core::extra_args();
-    if args.len() >= 2 && args[0] == "--child-yield" {
-        let spec: Spec = serde_json::from_str(&args[1]).expect("spec");
+    if args.len() >= 3 && args[0] == "--child-yield" {
+        let batches: usize = args[1].parse().expect("batches");
+        let specs: Vec<Spec> = serde_json::from_str(&args[2]).expect("specs");
         unsafe {
             let lim = libc::rlimit { rlim_cur: CHILD_AS_LIMIT, rlim_max: CHILD_AS_LIMIT };
             libc::setrlimit(libc::RLIMIT_AS, &lim);
             let cpu = libc::rlimit { rlim_cur: 3 * WATCHDOG_CPU.as_secs(), rlim_max: 3 * WATCHDOG_CPU.as_secs() };
             libc::setrlimit(libc::RLIMIT_CPU, &cpu);
         }
-        let v = child_yield(&spec);
-        println!("{v}");
+        for spec in &specs {
+            let v = child_yield(spec, batches);
+            println!("RESULT {v}");
+            use std::io::Write;
+            let _ = std::io::stdout().flush();
+        }
         std::process::exit(0);
     }
     mc_core::quiet_panics();
